@@ -457,7 +457,19 @@ class FragGen:
 
     def program(self):
         env = {"ints": [], "bools": [], "muts": []}
-        out = [HEADER.rstrip("\n"), "start :: fn do"]
+        out = [HEADER.rstrip("\n")]
+        if self.stage >= 3:
+            # stage 3a: top-level global definitions (values of the expression fragment over earlier globals)
+            for _ in range(self.r.randint(1, 4)):
+                if self.r.random() < 0.7:
+                    g = self.fresh("g")
+                    out.append("%s :: %s" % (g, self.int_expr(env, 2)))
+                    env["ints"].append(g)
+                else:
+                    g = self.fresh("h")
+                    out.append("%s :: %s" % (g, self.bool_expr(env, 2)))
+                    env["bools"].append(g)
+        out.append("start :: fn do")
         out += self.block(env, 2, 1, self.r.randint(3, 8))
         out.append("end")
         return "\n".join(out) + "\n"
